@@ -68,6 +68,11 @@ func GetLengthLimitedID(fixedPrefix, suffix string, maxLength int) string {
 			log.Panicf("GetLengthLimitedID: maxLength %d is too small for prefix %q (length %d); "+
 				"need at least %d", maxLength, fixedPrefix, prefixLen, prefixLen+2)
 		}
+		if charsLeftForHash > len(hash) {
+			// The limit leaves room for more characters than the hash has (e.g. the 256-character
+			// nftables name limit): use the whole hash.
+			charsLeftForHash = len(hash)
+		}
 		return fixedPrefix + shortenedPrefix + hash[0:charsLeftForHash]
 	}
 	// No need to shorten.
